@@ -228,12 +228,13 @@ Fixpoint fans_loop (guarded_name : bool) (es : list fentry) (d : list (bytes * l
   end.
 Definition sensors_fans (guarded_name : bool) (es : list fentry) := fans_loop guarded_name es [].
 
-(* basenames = glob('hwmon*/fan*_*'); if not basenames: basenames = glob('hwmon*/device/fan*_*') :
-   fan files below device/ are looked at only when there is no direct one *)
-Definition fan_basenames (direct nested : list fentry) : list fentry :=
+(* the code before commit 1b69de5: basenames = glob('hwmon*/fan*_*'); if not basenames: basenames =
+   glob('hwmon*/device/fan*_*') -- fan files below device/ were looked at only when there was no direct one.
+   (Now both globs are united and sorted: the argument of [sensors_fans] is that sorted union.) *)
+Definition fan_basenames_legacy (direct nested : list fentry) : list fentry :=
   match direct with [] => nested | _ => direct end.
-Definition sensors_fans_tree (guarded_name : bool) (direct nested : list fentry) :=
-  sensors_fans guarded_name (fan_basenames direct nested).
+Definition sensors_fans_legacy_tree (guarded_name : bool) (direct nested : list fentry) :=
+  sensors_fans guarded_name (fan_basenames_legacy direct nested).
 
 (* ------------------------------------------------------------ sensors_battery *)
 Inductive mval := MI (z : Z) | MB (b : bytes).
@@ -462,13 +463,14 @@ Definition is_cpuN_line (l : bytes) : bool :=
   | _ => false
   end.
 
-(* [sysconf] = os.sysconf("SC_NPROCESSORS_ONLN"): None when it raises ValueError *)
-Definition cpu_count_logical (sysconf : option Z) (cpuinfo stat : fres) : outcome (option Z) :=
+(* [sysconf] = os.sysconf("SC_NPROCESSORS_ONLN"): None when it raises ValueError.
+   [legacy] = true: the code before commit d196a16 (line.lower().startswith(b'processor')) *)
+Definition cpu_count_logical_at (legacy : bool) (sysconf : option Z) (cpuinfo stat : fres) : outcome (option Z) :=
   match sysconf with
   | Some n => Val (Some n)
   | None =>
     do c <- read_req cpuinfo;
-    let num := count_where (fun l => prefixb s_processor (lower l)) (lines_keep c) in
+    let num := count_where (fun l => prefixb s_processor (if legacy then lower l else l)) (lines_keep c) in
     if num =? 0 then
       do s <- read_req stat;
       let num2 := count_where is_cpuN_line (lines_keep s) in
@@ -518,6 +520,8 @@ Fixpoint cores_lines (ls : list bytes) (mapping : list (Z * Z)) (pid cores : opt
       else cores_lines r mapping pid cores
     end
   end.
+
+Definition cpu_count_logical := cpu_count_logical_at false.
 
 (* [lists] = the files matched by glob(core_cpus_list) or glob(thread_siblings_list) *)
 Definition cpu_count_cores (lists : list fres) (cpuinfo : fres) : outcome (option Z) :=
